@@ -126,6 +126,14 @@ class Geo:
         return e
 
 
+def cosb(lat, E):
+    """cosine of the reduced latitude, tan(beta) = (1 - f) tan(lat): elementary auxiliary (alpha)"""
+    f = 1.0 / float(E.inversef)
+    if abs(lat) == 90.0:
+        return E_(0.0)
+    return E_(math.cos(math.atan((1.0 - f) * math.tan(math.radians(lat)))))
+
+
 def cosd(x):
     return E_(max(math.cos(math.radians(x)), 0.0))
 
@@ -210,6 +218,13 @@ def build_c04(g, cases, arcs, quick, rnd):
                 b = dict(back)      # the reverse azimuth after travelling back is the azimuth the line left the start with
                 return {"p": {"lat": E_(lat), "lon": E_(lon), "az": E_(az)}, "s": E_(s), "out": out, "back": b, "cos1": cosd(lat), "ell": e[0]}
             evs.append(g.ev("DREV", tag, rev))
+
+            def clair():
+                out = g.direct(lat, lon, az, s, E)
+                la2, lo2, a21 = out["f"]
+                return {"lat2": E_(la2), "sa1": E_(math.sin(math.radians(az))), "cb1": cosb(lat, E),
+                        "sa2": E_(math.sin(math.radians(a21 - 180.0))), "cb2": cosb(la2, E), "ell": e[0], "in": [lat, lon, az, s]}
+            evs.append(g.ev("DCL", tag, clair))
             rel = rnd.choice(["reflect", "mirror", "shift", "zero", "args"])
 
             def sym():
@@ -292,6 +307,14 @@ def build_c05(g, cases, arcs, quick, rnd):
                 ba = g.inverse(lat2, lon2, lat1, lon1, E)
                 return {"p1": [lat1, lon1], "p2": [lat2, lon2], "ab": ab, "ba": ba, "sinsig": E_(abs(math.sin(ab["f"][0] / a))), "ell": e[0]}
             evs.append(g.ev("ISWAP", tag, swap))
+
+            def iclair():
+                ab = g.inverse(lat1, lon1, lat2, lon2, E)
+                s_, a12, a21 = ab["f"]
+                return {"sa1": E_(math.sin(math.radians(a12))), "cb1": cosb(lat1, E), "sa2": E_(math.sin(math.radians(a21 - 180.0))),
+                        "cb2": cosb(lat2, E), "sinsig": E_(abs(math.sin(s_ / a))), "ell": e[0], "in": [lat1, lon1, lat2, lon2]}
+            if abs(lat1) < 89.0 and abs(lat2) < 89.0:
+                evs.append(g.ev("ICL", tag, iclair))
             off = rnd.choice([360.0, -360.0, 37.5, -200.0, 180.0])
 
             def shift():
